@@ -224,9 +224,14 @@ def attr_of(o: Dict[str, Any]) -> str:
 def abstract(run: Runner, o: Dict[str, Any], options: Any) -> Any:
     """Observed value of option o, mapped back to the slots of the model (None when it cannot be mapped)."""
     kind, x = o["kind"], o["_"]
+    if not hasattr(options, attr_of(o)):             # --enable-intersphinx-cache: deprecated, no effect on Options
+        return None
     val = getattr(options, attr_of(o))
     if kind == "flag":
-        return [1] if val == (not x["store_false"]) else [0]
+        on, off = getattr(run.expected(cli_args(o, [1], "long")), attr_of(o)), getattr(run.expected([]), attr_of(o))
+        if on == off:                                   # --make-html: the computed default is already True
+            return None
+        return [1] if val == on else [0]
     if kind == "count":
         return [options.verbosity + options.quietness] if x["dest"] == "verbosity" else [val]
     single = {s: getattr(run.expected(cli_args(o, [s], "eq")), attr_of(o)) for s in (1, 2)}
@@ -289,10 +294,36 @@ def kf_unrecognised_cli_spelling(w: Dict[str, Any]) -> bool:
     return merged != w["expected"]["val"] and w["observed"].get("abs") == merged and not w["observed"]["exit"]
 
 
+def _toml_reading(text: str, section: str, key: str) -> Any:
+    import toml
+    try:
+        return toml.loads(text)[section][key]
+    except Exception:
+        return None
+
+
 def kf_ini_read_as_toml(w: Dict[str, Any]) -> bool:
-    """Python twin of ConfigQuote.tla KF_IniReadAsToml."""
-    return w.get("kind") == "quote" and w.get("fmt") == "ini" and bool(w.get("toml_valid")) and w.get("err") == "" \
-        and w.get("observed") != w.get("expected")
+    """Python twin of ConfigQuote.tla KF_IniReadAsToml: a pydoctor.ini whose text is also valid TOML is read with
+    TOML's rules (observed = the TOML reading, or the abort TOML's list reading causes), not with the INI ones."""
+    if w.get("kind") == "quote":
+        return w.get("fmt") == "ini" and bool(w.get("toml_valid")) and w.get("q") in ("single", "plain") \
+            and (w.get("observed") != w.get("expected") or bool(w.get("err")))
+    if w.get("kind") == "merge":
+        s = w["scn"]
+        if s["fmt"] != "ini" or s["fstyle"] != "quoted" or w["failed"] != ["SameAsCommandLine"]:
+            return False
+        reading = _toml_reading(w["file"]["pydoctor.ini"], "pydoctor", s["key"])
+        return isinstance(reading, str) and len(w["observed"].get("differs", {})) == 1 \
+            and repr(reading)[:120] == list(w["observed"]["differs"].values())[0][0]
+    return False
+
+
+def kf_toml_leading_escaped_quote(w: Dict[str, Any]) -> bool:
+    """Python twin of ConfigQuote.tla KF_TomlLeadingQuote: the `toml` package reads a basic string whose text is `"`
+    or starts with `""` (written "\\"..." ) back as the empty string."""
+    t = w.get("text") or ""
+    return w.get("kind") == "quote" and w.get("q") in ("basic", "double") and bool(w.get("toml_valid")) \
+        and (t == '"' or t.startswith('""')) and w.get("observed") == "" and not w.get("err")
 
 
 # -------------------------------------------------------------------------------- part 1: the merge
@@ -493,6 +524,7 @@ def run(ctx: Ctx) -> int:
     rng = random.Random(ctx.seed)
     ctx.register_matcher("unrecognised-cli-spelling", kf_unrecognised_cli_spelling)
     ctx.register_matcher("ini-file-read-as-toml", kf_ini_read_as_toml)
+    ctx.register_matcher("toml-leading-escaped-quote", kf_toml_leading_escaped_quote)
     n1 = part_merge(ctx, rng)
     n2 = part_quote(ctx, rng)
     ctx.exhaustive = True
